@@ -139,7 +139,8 @@ class Device(object):
             kw["UCMM_class"] = UCMM
         elif pers is not None and pers["k"] != "any":
             # a simple (non-routing) device is configured with any false value: False (--simple), an empty list (--route-path '[]'), 0
-            rp = {"zero": 0, "empty": []}.get(pers.get("form"), False) if pers["k"] == "simple" else route_py(pers["segs"])
+            rp = {"zero": 0, "empty": device.parse_route_path("[]")}.get(pers.get("form"), False) if pers["k"] == "simple" else route_py(pers["segs"])
+            # (the empty list as the command line / configuration file text '[]' yields it)
 
             class UCMM(ucmm_mod.UCMM):          # as main() does for --route-path / --simple
                 route_path = rp
